@@ -461,6 +461,61 @@ func (c *Ctx) URem(a, b *Term) *Term {
 	return c.bin(OpURem, a, b)
 }
 func (c *Ctx) SRem(a, b *Term) *Term { return c.bin(OpSRem, a, b) }
+// lowBits returns a simplified term equal to x mod 2^k (same width, value
+// < 2^k), or nil if nothing is known structurally.
+func (c *Ctx) lowBits(x *Term, k int) *Term {
+	w := x.Sort.W
+	lm := (uint64(1) << uint(k)) - 1
+	switch x.Op {
+	case OpConst:
+		return c.BVC(w, x.C&lm)
+	case OpShl:
+		if x.Args[1].Op == OpConst && x.Args[1].C >= uint64(k) {
+			return c.BVC(w, 0)
+		}
+	case OpMul:
+		if x.Args[1].Op == OpConst && x.Args[1].C&lm == 0 {
+			return c.BVC(w, 0)
+		}
+	case OpBAnd:
+		if x.Args[1].Op == OpConst {
+			m := x.Args[1].C
+			if m&^lm == 0 {
+				return x // already below 2^k
+			}
+			if m&lm == 0 {
+				return c.BVC(w, 0)
+			}
+		}
+	case OpAdd, OpBOr, OpSub:
+		la, lb := c.lowBits(x.Args[0], k), c.lowBits(x.Args[1], k)
+		if la == nil || lb == nil {
+			return nil
+		}
+		if x.Op == OpBOr {
+			return c.BOr(la, lb)
+		}
+		if x.Op == OpAdd {
+			if isZero(la) {
+				return lb
+			}
+			if isZero(lb) {
+				return la
+			}
+			return c.bin(OpBAnd, c.Add(la, lb), c.BVC(w, lm))
+		}
+		if isZero(lb) {
+			return la
+		}
+		return c.bin(OpBAnd, c.Sub(la, lb), c.BVC(w, lm))
+	case OpZExt:
+		if x.Args[0].Sort.W <= k {
+			return x
+		}
+	}
+	return nil
+}
+
 func (c *Ctx) BAnd(a, b *Term) *Term {
 	if isZero(a) || isZero(b) {
 		return c.BVC(a.Sort.W, 0)
@@ -473,6 +528,30 @@ func (c *Ctx) BAnd(a, b *Term) *Term {
 	}
 	if b.Op == OpConst && b.C == mask(b.Sort.W) {
 		return a
+	}
+	if a.Op == OpConst && b.Op != OpConst {
+		a, b = b, a
+	}
+	if b.Op == OpConst && a.Op != OpConst {
+		w := a.Sort.W
+		m := b.C
+		// low mask 2^k-1
+		if m&(m+1) == 0 {
+			k := bits.Len64(m)
+			if lb := c.lowBits(a, k); lb != nil {
+				return lb
+			}
+		} else if inv := ^m & mask(w); inv&(inv+1) == 0 && inv != 0 {
+			// high mask ^(2^k-1): x - (x mod 2^k) when x mod 2^k is structurally known
+			k := bits.Len64(inv)
+			if lb := c.lowBits(a, k); lb != nil {
+				return c.Sub(a, lb)
+			}
+		}
+		// (x & m1) & m2
+		if a.Op == OpBAnd && a.Args[1].Op == OpConst {
+			return c.BAnd(a.Args[0], c.BVC(w, a.Args[1].C&m))
+		}
 	}
 	return c.bin(OpBAnd, a, b)
 }
